@@ -308,16 +308,22 @@ pub(crate) fn check_regexes(grammar: &Grammar, fancy_regex: bool) -> Result<()> 
     use crate::lang::rustemo_actions::Recognizer;
     for term in &grammar.terminals {
         if let Some(Recognizer::RegexTerm(regex)) = &term.recognizer {
-            let regex = format!("^(?:{})", regex.as_ref());
-            let error = if fancy_regex {
-                rustemo::fancy_regex::Regex::new(&regex)
-                    .err()
-                    .map(|e| e.to_string())
-            } else {
-                rustemo::regex::Regex::new(&regex)
-                    .err()
-                    .map(|e| e.to_string())
-            };
+            // The regex is checked both as written and anchored as the parser
+            // will use it: `b)|(?:c` is valid only inside the anchoring group.
+            let anchored = format!("^(?:{})", regex.as_ref());
+            let error = [regex.as_ref().as_str(), anchored.as_str()]
+                .iter()
+                .find_map(|regex| {
+                    if fancy_regex {
+                        rustemo::fancy_regex::Regex::new(regex)
+                            .err()
+                            .map(|e| e.to_string())
+                    } else {
+                        rustemo::regex::Regex::new(regex)
+                            .err()
+                            .map(|e| e.to_string())
+                    }
+                });
             if let Some(error) = error {
                 return Err(Error::Error(format!(
                     "Invalid regex recognizer for terminal '{}': {}",
